@@ -111,6 +111,12 @@ impl Counter {
     pub(crate) fn total(&self) -> usize {
         self.counter.load(Ordering::SeqCst) - 1
     }
+
+    /// raw in-progress count as the accept thread sees it (hooks only; wraps instead of underflowing)
+    #[cfg(actix_net_verif)]
+    pub(crate) fn verif_total(&self) -> usize {
+        self.counter.load(Ordering::SeqCst).wrapping_sub(1)
+    }
 }
 
 pub(crate) struct WorkerCounter {
@@ -201,7 +207,7 @@ impl WorkerHandleAccept {
 
     #[cfg(actix_net_verif)]
     pub(crate) fn verif_total(&self) -> usize {
-        self.counter.total()
+        self.counter.verif_total()
     }
 }
 
